@@ -148,6 +148,65 @@ Definition nts_decode (p0 : nts_pkt) (b : list Z) : nts_pkt * Z :=
   if (max_packet_len <? length b)%nat then (p0, d_too_long)
   else nts_decode_loop (length b) b ntp_hdr_len p0 false false.
 
+(* ---------- the encrypted part: NewResponsePacket and authenticate ---------- *)
+
+(* maxCookies(idLen, cookieLen); a negative numerator (huge identifier) gives no positive count either way *)
+Definition max_cookies (idlen clen : nat) : nat :=
+  ((max_packet_len - ntp_hdr_len - (4 + pad4len idlen) - 40) / (4 + pad4len clen))%nat.
+
+(* NewResponsePacket: the plaintext of the authenticator.  cookies[0] of an empty list panics; the
+   list is cut to what fits; the buffer is sized len(cookies) * (4 + len(cookies[0])) (no padding,
+   first cookie's length for all) and every cookie is packed into it as an extension field *)
+Definition nts_response_plain (cookies : list (list Z)) (idlen : nat) : outcome (list Z) :=
+  match cookies with
+  | [] => Panic
+  | c0 :: _ =>
+      let n := max_cookies idlen (length c0) in
+      let cs := if (1 <=? n)%nat && (n <? length cookies)%nat then firstn n cookies else cookies in
+      let buf := repeat 0 (length cs * (4 + length c0)) in
+      match pack_all (field_pack ext_cookie) (buf, 0%nat) cs with
+      | Ok (b, _) => Ok b
+      | _ => Panic
+      end
+  end.
+
+(* authenticate, after Open: the walk over the decrypted extension fields; cookies are appended *)
+Fixpoint nts_auth_walk (fuel : nat) (pt : list Z) (pos : nat) (cs : list ext_val) : list ext_val * Z :=
+  if (28 <=? length pt - pos)%nat then
+    match fuel with
+    | O => (cs, d_fuel)
+    | S fuel' =>
+      let ty := get_u16 pt pos in
+      let len := get_u16 pt (pos + 2) in
+      if len <? 4 then (cs, d_short_ext)
+      else
+        let pos4 := (pos + 4)%nat in
+        let next := (pos4 + Z.to_nat (len - 4))%nat in
+        if ty =? ext_cookie then
+          nts_auth_walk fuel' pt next (cs ++ [(ty, len, zpad (Z.to_nat (len - 4)) (skipn pos4 pt))])
+        else nts_auth_walk fuel' pt next cs
+    end
+  else (cs, d_ok).
+
+(* Authenticator.pos as DecodePacket records it: where the authenticator field starts; the bytes
+   before it are the associated data of the AEAD *)
+Fixpoint nts_auth_pos (fuel : nat) (b : list Z) (pos : nat) : option nat :=
+  if (28 <=? length b - pos)%nat then
+    match fuel with
+    | O => None
+    | S fuel' =>
+      let ty := get_u16 b pos in
+      let len := get_u16 b (pos + 2) in
+      if len <? 4 then None
+      else
+        let next := (pos + 4 + Z.to_nat (len - 4))%nat in
+        if ty =? ext_unique_id then
+          if (Z.to_nat (len - 4) <? 32)%nat then None else nts_auth_pos fuel' b next
+        else if ty =? ext_authenticator then Some pos
+        else nts_auth_pos fuel' b next
+    end
+  else None.
+
 (* ---------- the wire format as the property reads it ---------- *)
 
 Definition pad4 (v : list Z) : list Z := v ++ repeat 0 (pad4len (length v) - length v).
@@ -222,3 +281,7 @@ Definition C14_nts_ok (hdr : list Z) (p : nts_in) (nonce ct : list Z) (enc : lis
       (ty =? ext_authenticator) && (len mod 4 =? 0) && zs_eqb n' nonce && zs_eqb c' ct
       && (8 + Z.of_nat (length nonce) + Z.of_nat (length ct) <=? len) && (len <? 8 + Z.of_nat (length nonce) + Z.of_nat (length ct) + 8)
       && (Z.of_nat (length enc) =? 48 + snd (fst (np_uid d)) + sum_lens (np_cookies d) + sum_plens (np_placeholders d) + len)).
+
+(* the cookies a response carries encrypted come back, in order, as cookies *)
+Definition C14_resp_cookies_ok (sent : list (list Z)) (got : list ext_val) : bool :=
+  fields_ok ext_cookie sent got.
